@@ -138,8 +138,9 @@ class Report(object):
                 elif n == 12:
                     print('  ... %d more (see evidence/violations/)' % (len(violations) - 12))
                 print('VIOLATION property=%s replay=%s' % (self.prop, p))
-            if code == 0:
-                code = 1
+            # a concrete violation outranks an incomplete analysis: it is reported as such (exit 1);
+            # the ANALYSIS-ERROR lines printed above still say what else could not be decided
+            code = 1
         if write:
             self.write_evidence(wall, len(violations), knowns, selftest)
         if selftest is not None:
